@@ -141,6 +141,11 @@ static int is_red(const struct cstl_bintree_node * bn)
  */
 #define KO_NULL 1
 #define KP(ko) ((ko) == KO_NULL ? NULL : (void *)&kobj[ko])
+/* value object 0 is the NULL pointer as well (a set: keys without values), so the
+ * entry (NULL key -> NULL value) exists; whether an iterator denotes an entry is
+ * decided by the return code / the node handle, never by its pointers being NULL */
+#define VO_NULL 0
+#define VP(v) ((v) == VO_NULL ? NULL : (void *)&vobj[v])
 
 static long kp_id(const void * p)
 {
@@ -161,7 +166,7 @@ static long v_id(const void * p)
 {
     ptrdiff_t d = (const char *)p - (const char *)vobj;
     if (p == NULL) {
-        return -1;
+        return VO_NULL;
     }
     if (d < 0 || d >= (ptrdiff_t)sizeof(vobj) || d % (ptrdiff_t)sizeof(int) != 0) {
         return -3;
@@ -455,10 +460,16 @@ static void clr_map(void * e, void * p)
     mlog_add(b);
 }
 
-static void print_iter(const cstl_map_iterator_t * it, int detached)
+/* present: the operation reported an entry (return code 0/1, or a node handle);
+ * otherwise the iterator must be the end iterator (all three fields NULL) */
+static void print_iter(const cstl_map_iterator_t * it, int detached, int present)
 {
-    if (it->_ == NULL && it->key == NULL && it->val == NULL) {
-        outf("end");
+    if (!present) {
+        if (it->_ == NULL && it->key == NULL && it->val == NULL) {
+            outf("end");
+        } else {
+            outf("notend(%s,%s,%s)", it->key ? "k" : "0", it->val ? "v" : "0", it->_ ? "n" : "0");
+        }
     } else if (detached) {
         outf("(%ld,%ld,%d)", kp_id(it->key), v_id(it->val), it->_ == NULL ? 0 : -1);
     } else {
@@ -537,18 +548,18 @@ static void op_map(int argc, char ** argv)
         }
         h_alloc_plan(a ? "1" : "0");
         h_alloc_arm(1);
-        r = cstl_map_insert(&map, KP(ko), &vobj[v], &it);
+        r = cstl_map_insert(&map, KP(ko), VP(v), &it);
         h_alloc_arm(0);
         mlog_alloc();
         outf("r=%d it=", r);
-        print_iter(&it, 0);
+        print_iter(&it, 0, r == 0 || r == 1);
         outf(" log=[%s]", mlog);
     } else if (!strcmp(o, "find") && argc == 3) {
         cstl_map_iterator_t it;
         probe = (int)h_int(argv[2]);
         cstl_map_find(&map, &probe, &it);
         outf("it=");
-        print_iter(&it, 0);
+        print_iter(&it, 0, it._ != NULL);
     } else if (!strcmp(o, "erase") && argc == 3) {
         cstl_map_iterator_t it;
         int r;
@@ -559,14 +570,14 @@ static void op_map(int argc, char ** argv)
         h_alloc_arm(0);
         mlog_alloc();
         outf("r=%d it=", r);
-        print_iter(&it, 1);
+        print_iter(&it, 1, r == 0);
         outf(" log=[%s]", mlog);
     } else if (!strcmp(o, "eraseit") && argc == 3) {
         cstl_map_iterator_t it;
         probe = (int)h_int(argv[2]);
         cstl_map_find(&map, &probe, &it);
         outf("it=");
-        print_iter(&it, 0);
+        print_iter(&it, 0, it._ != NULL);
         if (it._ != NULL) {
             h_alloc_plan("");
             h_alloc_arm(1);
